@@ -195,11 +195,17 @@ def rep (s : Subs) : Bool :=
   let sids := s.styles.map (·.id)
   let rids := s.regions.map (·.id)
   let okRef (r : Option Str) (ids : List Str) : Bool := match r with | none => true | some x => !x.isEmpty && ids.contains x
-  let okAttrs (a : Attrs) : Bool := (ttmlAttrsOf a).all fun (_, v) => v.all xmlLegal
+  -- the independent decoder refuses a start tag that carries a line feed in an attribute value, and prints zIndex in
+  -- canonical form (`C03w2.needs_attr`, `needs_zcanon`)
+  let okAttrs (a : Attrs) : Bool := (ttmlAttrsOf a).all fun (k, v) => v.all xmlLegal && !v.contains '\n' &&
+    (k != "zIndex".toList || (match atoi v with | some n => itoa n == v | none => false))
+  let okId (x : Str) : Bool := !x.isEmpty && x.all xmlLegal && !x.contains '\n'
   let okMeta := ((TTML.kvGet s.metadata "Title").getD []).all xmlLegal && ((TTML.kvGet s.metadata "TTMLCopyright").getD []).all xmlLegal
   okMeta &&
-  s.styles.all (fun d => !d.id.isEmpty && d.id.all xmlLegal && okRef d.ref sids && okAttrs d.attrs) &&
-  s.regions.all (fun d => !d.id.isEmpty && d.id.all xmlLegal && okRef d.ref sids && okAttrs d.attrs) &&
+  -- identifiers are map keys
+  sids.eraseDups.length == sids.length && rids.eraseDups.length == rids.length &&
+  s.styles.all (fun d => okId d.id && okRef d.ref sids && okAttrs d.attrs) &&
+  s.regions.all (fun d => okId d.id && okRef d.ref sids && okAttrs d.attrs) &&
   s.items.all fun it =>
     decide (0 ≤ it.startAt) && decide (0 ≤ it.endAt) && okRef it.style sids && okRef it.region rids && okAttrs it.attrs &&
     it.lines.all fun l => l.items.all fun li =>
